@@ -202,5 +202,65 @@ def write_coq():
     print("wrote", path)
 
 
+C10B_FIDS = ["F17a", "F17b", "F17c", "F17d", "F17e", "F17f", "F17g", "F17h",
+             "F04c", "F04d", "F04e", "F04g", "F05b", "F05c", "F05d", "F05i",
+             "F18a", "F18b", "F18c", "F18f", "F18i", "F18k", "F18l", "F18m", "F18n", "F18o", "F18p", "F18q", "F18r", "F18s",
+             "F08a", "F08b", "F08c", "F08d", "F08e", "F08f", "F08g", "F08h", "F08i", "F08j", "F08k", "F08l", "F08m",
+             "F08n", "F08o", "F09a", "F09b", "F09c", "F09d", "F09e", "F09f", "F09g", "F09h", "F09i",
+             "F06b", "F06c", "F07b", "F07c",
+             "F05e", "F05f", "F05g", "F05h"]
+
+
+def c10b_programs():
+    """programs of the examples in coq/Check/CheckProofsC10b.v: one per catalogue entry of the type
+    classes (the fault sits in the Failed branch of a Condition inside a counting loop), the same
+    faults inside a parallel loop / a Parallel block, and what is still accepted (D12b)"""
+    out = {}
+    for fid in C10B_FIDS:
+        after, fidx, sub = faults.STMT_FAULTS[fid]
+        inner = [Q] + gen_check.clone(after)
+        body = [("count", False, "w", ("int", 2), [("cond", ("bool", False), [svc(name="Sk")], inner)])]
+        out["f_" + fid] = prog(body, [CALLEE])
+    bad_call = ("fcallee", [P("q", "inner"), P("q", "count")], [("x1", FIN)])
+    out["parloop_arg_mismatch"] = prog([Q, ("count", True, "z", ("int", 2), [("call",) + bad_call])], [CALLEE])
+    out["parallel_arg_mismatch"] = prog([Q, ("parallel", [GOOD_CALL, bad_call])], [CALLEE])
+    out["parloop_literal_value"] = prog(
+        [Q, ("count", True, "z", ("int", 2),
+             [("call", "fcallee", [("lit", "Fq", fq_json(items=("arr", [fin_json(), fin_json(pair=("arr", [("bool", False), n(1)]))]))),
+                                   P("q", "count")], [("x1", FIN)])])], [CALLEE])
+    out["parloop_path_step"] = prog(
+        [Q, ("count", True, "z", ("int", 2), [("call", "fcallee", [("var", "q"), P("q", "inner", "nosuch")], [("x1", FIN)])])], [CALLEE])
+    # still accepted: == / != between operands of different types, a number under == with a boolean (D12b)
+    out["eq_number_string"] = prog([Q, cond(cmp_("==", P("q", "count"), ("str", "a")))])
+    out["ne_number_boolean"] = prog([Q, cond(cmp_("!=", P("q", "count"), P("q", "flag")))])
+    out["comparison_as_number"] = prog([Q, cond(cmp_("<", cmp_("+", ("paren", cmp_("<", P("q", "count"), n(2))), n(1)), n(3)))])
+    # F03f in a call output / a task input (the struct-attribute case is w_D21_array_length_by_name)
+    out["len_by_name_output"] = prog([Q, ("count", True, "z", ("int", 2),
+                                          [("call", "fcallee", [("var", "q"), P("q", "count")], [("x1", ("array", "Fin", "n"))])])], [CALLEE])
+    out["len_by_name_input"] = prog([Q, ("call",) + GOOD_CALL],
+                                    [CALLEE, {"name": "tnew", "ins": [("a", ("array", "number", "n"))], "body": [svc(name="Sn")], "outs": []}])
+    out["good_small"] = EXTRA_COQ["good_small"]
+    return out
+
+
+def write_coq_b():
+    import pfdl_ast
+    I = pfdl_ast.Interner()
+    out = ["(* WitnessesC10b.v — GENERATED by tools/mk_check_witnesses.py: the programs of the examples of",
+           "   coq/Check/CheckProofsC10b.v (one per catalogue entry of the type classes of C10, see",
+           "   harness/faults.py).  Definitions only.  Names are interned by the harness (productionTask = 0). *)",
+           "From PFDL Require Import Base Syntax.", ""]
+    for name, p in c10b_programs().items():
+        out.append("Definition wb_%s : program :=\n  %s.\n" % (name, pfdl_ast.coq_program(I, p)))
+    out.append("(* interned names: " + ", ".join("%d=%s" % (i, s.replace("*)", "* )").replace('"', "'")) for i, s in enumerate(I.rev)) + " *)")
+    path = os.path.join(os.path.dirname(HERE), "coq", "Check", "WitnessesC10b.v")
+    text = "\n".join(out) + "\n"
+    if not os.path.exists(path) or open(path).read() != text:
+        open(path, "w").write(text)
+    print("wrote", path)
+    return c10b_programs()
+
+
 if __name__ == "__main__":
     main()
+    write_coq_b()
